@@ -413,7 +413,12 @@ func (g *gen) structFor(sc *scope, depth int, allowCmds bool, cmdDepth int) *Str
 			}
 			sd.Fields = append(sd.Fields, f)
 		default:
-			sd.Fields = append(sd.Fields, g.optField(sc))
+			of := g.optField(sc)
+			sd.Fields = append(sd.Fields, of)
+			// the program kept the slice it initialised the option with in a field of its own
+			if of.Kind == "v" && of.Exported && strings.HasPrefix(of.Ty, "L") && strings.HasPrefix(of.Init, "L[") && len(of.Init) > 2 && g.chance(0.5) {
+				sd.Fields = append(sd.Fields, FieldDesc{Name: g.fieldName(), Exported: true, Kind: "v", Ty: of.Ty, Plain: true, AliasOf: of.Name, Init: of.Init})
+			}
 		}
 	}
 	if allowCmds && g.chance(g.p.PosArgs) {
@@ -463,6 +468,7 @@ func clearInits(sd *StructDesc) {
 	for i := range sd.Fields {
 		f := &sd.Fields[i]
 		f.Init = ""
+		f.AliasOf = ""
 		if f.Kind == "v" && f.Ty[0] == 'F' {
 			f.Ty = "bool"
 			f.Cb = 0
